@@ -1,8 +1,52 @@
 (** C10: gcd in Z[x] (statements only; proofs in Refine/ResProofs*.v). *)
 From RNT.Model Require Import Base Poly Resultant.
-From RNT.Refine Require Import ResProofs.
+From RNT.Refine Require Import ResProofs ResProofs2 ResProofs3.
 Open Scope Z_scope.
 
 (** [P] gcd(0, g) = g verbatim (sign and content unchanged; g = 0 gives 0). *)
 Theorem gcd_zero_l : forall g, resultant_gcd [] g = (true, Done g).
 Proof. exact ResProofs.resultant_gcd_zero_l. Qed.
+
+(** [P] gcd(f, 0) for canonical f <> 0: f if lc f > 0, -f otherwise (= |cont f| * pp f). *)
+Theorem gcd_zero_r : forall f, f <> [] -> canonb f = true ->
+  resultant_gcd f [] = (true, Done (if 0 <? zlast f then f else pneg opsZ f)).
+Proof. exact ResProofs3.resultant_gcd_zero_r. Qed.
+Example zero_r_ex : resultant_gcd [6; -4; -10] [] = (true, Done [-6; 4; 10]) /\ canonb [6; -4; -10] = true.
+Proof. split; vm_compute; reflexivity. Qed.
+
+(** [P] enough fuel for every pair of coefficient lists. *)
+Theorem gcd_no_outoffuel : forall f g, snd (resultant_gcd f g) <> OutOfFuel.
+Proof. exact ResProofs.resultant_gcd_no_outoffuel. Qed.
+
+(** [C] canonical inputs, flag true => a polynomial is returned (no division by zero).
+    Full statement (not proved, sub-resultant structure theorem): the flag is always true. *)
+Theorem gcd_flag_no_panic_partial : forall f g o,
+  canonb f = true -> canonb g = true ->
+  resultant_gcd f g = (true, o) -> exists d, o = Done d.
+Proof. exact ResProofs2.resultant_gcd_flag_no_panic. Qed.
+Example flag_ex :
+  let f := [-2; -3; 0; 2; 1] in let g := [-4; -2; 4; 2] in   (* (x^2-... ) common factor 2x... *)
+  canonb f = true /\ canonb g = true /\ fst (resultant_gcd f g) = true.
+Proof. repeat split; vm_compute; reflexivity. Qed.
+
+(** ** Specification level (MathComp [gcdp] over the integral domain Z; [p %= q] means equal up to non-zero
+    constant factors, i.e. associated over Q). *)
+From mathcomp Require Import all_ssreflect ssralg poly polydiv ssrZ.
+From RNT.Refine Require Import PolyRefine ResGcd.
+Import GRing.Theory Pdiv.Idomain.
+Local Open Scope ring_scope.
+
+(** [C] [gcd_partial]: canonical inputs, f <> 0 (g may be 0). If the run returns [d] with exactness flag
+    true, then d is associated over Q to gcd(f, g), is canonical, and has positive leading coefficient.
+    Full statement (not proved): the flag is always true (sub-resultant structure theorem); d | f and
+    d | g in Z[x] with coprime cofactors and coprime cofactor contents (needs Gauss's lemma on top of
+    this theorem); deg d = deg f + deg g - rank Sylvester(f, g). *)
+Theorem gcd_partial : forall (f g : seq Z) d,
+  canonb f = true -> canonb g = true -> f <> [::] ->
+  resultant_gcd f g = (true, Done d) ->
+  [/\ Poly d %= gcdp (Poly f) (Poly g), (0 < lead_coef (Poly d))%Z & canonb d = true].
+Proof. exact ResGcd.gcd_partial. Qed.
+Example gcd_partial_ex :
+  let f := [:: -3; -6; 1; 2]%Z in let g := [:: -4; -10; -4]%Z in
+  canonb f = true /\ canonb g = true /\ resultant_gcd f g = (true, Done [:: 1; 2]%Z).
+Proof. repeat split; vm_compute; reflexivity. Qed.
